@@ -59,7 +59,7 @@ def during_ike_rekey(ctx, res):
                         res.fail(key, what, {'seed': seed, 'conf': conf, 'faults': None, 'ops': S.ser_ops(h.ops[:at + 1]), 'oracle': key})
                     if h.tr is not None:
                         h.tr.close()
-                        S.deep_check(ctx, res, h.tr)
+                        S.deep_check(ctx, res, h.tr, honest=True)
 
 
 def run(ctx):
